@@ -173,6 +173,44 @@ def guess_level_case(spec, opts, rules_dir, trained=None):
     return v
 
 
+def linked_installation_case():
+    """the tools started through symbolic links kept in a work directory that also holds an older copy of the ruleset under `Rules/`:
+    every tool works on the installation's ruleset (the directory of the program file itself), so what `edit_rules.py` filtered is what
+    `pcfg_guesser.py` guesses from - by whichever path either was started"""
+    spec = {'terminals': {'D1': [['1', '0.5'], ['2', '0.5']], 'D3': [['123', '0.75'], ['777', '0.25']], 'A4': [['pass', '0.5'], ['word', '0.5']],
+                          'C4': [['LLLL', '1.0']], 'A7': [['letmein', '1.0']], 'C7': [['LLLLLLL', '1.0']]},
+            'grammar': [['A4D1', '0.25'], ['D1', '0.25'], ['A7D3', '0.125'], ['D3', '0.125'], ['A4', '0.125'], ['A4D3', '0.125']],
+            'omen_prob': [], 'prince': [], 'mode': 'dyadic', 'encoding': 'utf-8'}
+    name = 'c20link'
+    d = common.install_ruleset(spec, name)
+    snap = common.snapshot()
+    work = common.scratch_dir('c20work')
+    for f in ('pcfg_guesser.py', 'edit_rules.py'):
+        lp = os.path.join(work, f)
+        if os.path.lexists(lp):
+            os.remove(lp)
+        os.symlink(os.path.join(snap, f), lp)
+    old = os.path.join(work, 'Rules', name)
+    if os.path.exists(old):
+        shutil.rmtree(old)
+    shutil.copytree(d, old)
+    viol = []
+    wit = {'linked_installation': True}
+    o, e, rc = common.run_cli(os.path.join(work, 'edit_rules.py'), ['-r', name, '--min_length', '3', '--max_length', '5'], stdin='devnull')
+    kept = [l.split('\t')[0] for l in open(os.path.join(d, 'Grammar', 'grammar.txt')).read().split('\n') if l]
+    if rc != 0 or kept != ['A4D1', 'D3', 'A4']:
+        viol.append({'property': 'C20', 'kind': 'cli-typed-options', 'kept': kept, 'expected': ['A4D1', 'D3', 'A4'], 'rc': rc,
+                     'stderr': e.decode(errors='replace')[-200:], 'witness': wit})
+        return viol, 1
+    direct, _, _ = common.run_cli('pcfg_guesser.py', ['-r', name, '-s', 'c20linka'], stdin='devnull')
+    linked, _, _ = common.run_cli(os.path.join(work, 'pcfg_guesser.py'), ['-r', name, '-s', 'c20linkb'], stdin='devnull')
+    bad = [w for w in linked.decode('utf-8', 'replace').split('\n') if w and not 3 <= len(w) <= 5]
+    if linked != direct or bad or not direct:
+        viol.append({'property': 'C20', 'kind': 'guess-outside-length-bounds', 'guesses': bad[:5], 'lines_direct': direct.count(b'\n'),
+                     'lines_through_link': linked.count(b'\n'), 'witness': wit})
+    return viol, 3
+
+
 def run(ctx):
     rng = ctx.rng
     viol, samples, disagreements = [], [], []
@@ -383,6 +421,9 @@ def run(ctx):
             if rc != 0 or got != want or tree_digest(d, set()) != before:
                 viol.append({'property': 'C20', 'kind': 'cli-typed-options', 'argv': argv, 'rc': rc, 'kept': got if got is None else got[:8], 'expected': want[:8],
                              'stderr': err.decode(errors='replace')[-200:], 'witness': {'rows': rows, 'argv': argv, 'options': topts, 'context_values': cvals, 'cli': True}})
+    v_link, r_link = linked_installation_case()
+    viol += v_link
+    cli_runs += r_link
     cases += cli_runs
     if ctx.driver_ok:
         out = common.run_driver(ops)
@@ -406,6 +447,9 @@ def run(ctx):
 
 
 def replay(ctx, payload):
+    if (payload.get('violation', {}).get('witness') or {}).get('linked_installation'):
+        common.use_impl()
+        return linked_installation_case()[0]
     w = payload.get('violation', {}).get('witness') or {}
     if 'rows' not in w or 'options' not in w:
         return []
